@@ -106,6 +106,11 @@ def owner(framing, context, front=None, **opts):
         if front == 'aio-tcp':
             srv = aio.ModbusTcpServer(ctx, framer=FRAMER[framing], address=('127.0.0.1', 0), loop=_loop(), **k)
             try:
+                # the protocol factory the server hands to loop.create_server(): connections get their handler from it
+                srv._vmon_factory = srv.server_factory.cr_frame.f_locals.get('protocol_factory')
+            except Exception:  # noqa
+                srv._vmon_factory = None
+            try:
                 srv.server_factory.close()             # the listening socket is never created
             except Exception:  # noqa
                 pass
@@ -145,6 +150,8 @@ class FakeSock(object):
             raise KeyboardInterrupt('handler spins')
         while self.reads and callable(self.reads[0]):
             self.reads.pop(0)()               # run-time event between two reads (e.g. reconfiguration of the context)
+        if self.reads and isinstance(self.reads[0], BaseException):
+            raise self.reads.pop(0)           # an idle period longer than the socket's receive timeout (socket.timeout) etc.
         if self.reads:
             self.res.fed += 1
             self.res.per_read.append(b'')
@@ -297,8 +304,9 @@ def _sync_udp(res, framing, context, reads, opts):
     srv = owner(framing, context, 'sync-udp', **opts)
     peers, k = opts.get('peers') or [], -1
     for dg in reads:
-        if callable(dg):
-            dg()
+        if callable(dg) or isinstance(dg, BaseException):
+            if callable(dg):
+                dg()
             continue
         k += 1
         sock = FakeSock([], res)
@@ -336,6 +344,16 @@ class FakeTransport(object):
         self.res.closed = True
 
 
+def _aio_handler(srv):
+    """a connection's handler, made the way the server makes it (its own protocol factory) when that could be obtained"""
+    f = getattr(srv, '_vmon_factory', None)
+    if callable(f):
+        h = f()
+        if isinstance(h, aio.ModbusConnectedRequestHandler):
+            return h
+    return aio.ModbusConnectedRequestHandler(srv)
+
+
 async def _drain(h, limit=200):
     for _ in range(limit):
         await asyncio.sleep(0)
@@ -347,14 +365,15 @@ async def _drain(h, limit=200):
 
 async def _aio_tcp(res, framing, context, reads, opts):
     srv = owner(framing, context, 'aio-tcp', **opts)
-    h = aio.ModbusConnectedRequestHandler(srv)
+    h = _aio_handler(srv)
     tr = FakeTransport(res)
     h.connection_made(tr)
     burst = list(opts.get('burst') or [])       # group sizes: that many reads are queued before the handler task gets to run
     pending = 0
     for chunk in reads:
-        if callable(chunk):
-            chunk()
+        if callable(chunk) or isinstance(chunk, BaseException):
+            if callable(chunk):
+                chunk()
             continue
         if res.closed:
             break                      # transport.close() was called: the loop would deliver no more data
@@ -392,8 +411,9 @@ async def _aio_udp(res, framing, context, reads, opts):
     burst = list(opts.get('burst') or [])
     peers, k, pending = opts.get('peers') or [], -1, 0
     for dg in reads:
-        if callable(dg):
-            dg()
+        if callable(dg) or isinstance(dg, BaseException):
+            if callable(dg):
+                dg()
             continue
         k += 1
         res.fed += 1
@@ -450,8 +470,9 @@ def _tw_tcp(res, framing, context, reads, opts):
     p.makeConnection(tr)
     seen = 0
     for chunk in reads:
-        if callable(chunk):
-            chunk()
+        if callable(chunk) or isinstance(chunk, BaseException):
+            if callable(chunk):
+                chunk()
             continue
         res.fed += 1
         res.per_read.append(b'')
@@ -480,8 +501,9 @@ def _tw_udp(res, framing, context, reads, opts):
     p.makeConnection(tr)
     peers, k = opts.get('peers') or [], -1
     for dg in reads:
-        if callable(dg):
-            dg()
+        if callable(dg) or isinstance(dg, BaseException):
+            if callable(dg):
+                dg()
             continue
         k += 1
         res.fed += 1
@@ -535,7 +557,7 @@ def feed_multi(front, framing, context, conns, order, **opts):
             srv = owner(framing, context, "aio-tcp", **opts)
             hs = []
             for res in results:
-                h = aio.ModbusConnectedRequestHandler(srv)
+                h = _aio_handler(srv)
                 h.connection_made(FakeTransport(res))
                 hs.append(h)
             for i in order:
@@ -604,6 +626,8 @@ def feed_multi(front, framing, context, conns, order, **opts):
 
             def recv(self, n):
                 sched.yield_point(('recv', self.idx))
+                if queues[self.idx] and isinstance(queues[self.idx][0], BaseException):
+                    raise queues[self.idx].pop(0)
                 if queues[self.idx]:
                     self.res.fed += 1
                     self.res.per_read.append(b'')
